@@ -15,14 +15,15 @@ func init() {
 	register(&Property{
 		ID:         "C06",
 		Level:      "other",
-		Technique:  "call-graph SCC recursion-guard, forward CFG search for unchecked negative lengths, depth push/pop pairing, sibling agreement of the tag loops (static)",
-		Explain:    "Decides structural necessary conditions of C06 on every binary decoder: (1) every input-driven recursion cycle is cut by a dominating depth check; (2) no length returned by protowire.Consume* reaches a slice bound before its sign was tested (malformed input returns an error rather than panicking); (3) in the validator's explicit stack every depth decrement at a push is matched by an increment at the corresponding pop; (4) the tag loops (eager, lazy, validator, reflection) each reject invalid field numbers, mismatched/missing end-group markers and advance only by the consumed length.",
-		NotCovered: "agreement of validator and decoder on every malformed buffer (behavioural); panics from index arithmetic not tied to a Consume* length.",
+		Technique:  "call-graph SCC recursion-guard, forward CFG search for unchecked negative lengths, depth push/pop pairing, dominance checklist over the hand-unrolled tag loops (static)",
+		Explain:    "Decides structural necessary conditions of C06 on every binary decoder: (1) every input-driven recursion cycle is cut by a dominating depth check; (2) no length returned by protowire.Consume* reaches a slice bound before its sign was tested (malformed input returns an error rather than panicking); (3) in the validator's explicit stack every depth decrement at a push is matched by an increment at the corresponding pop; (4) the hand-unrolled tag loops of the fast path (eager, lazy, single lazy field) use the tag's field number only after rejecting numbers outside [MinValidNumber, MaxValidNumber], reject a mismatched end-group tag, report success only when the group was closed, and report the consumed byte count.",
+		NotCovered: "agreement of validator and decoder on every malformed buffer (behavioural); the validator's and the reflection decoder's own tag loops; panics from index arithmetic not tied to a Consume* length.",
 		Quick:      all("./proto", "./internal/impl"),
 		Thorough:   []ConfigLoad{{"default", []string{"./..."}}, {"legacy", []string{"./proto", "./internal/impl"}}},
 		Run: func(c *Ctx) {
 			c.ruleRecursionGuard(recScope{Rule: "R-RECURSION-GUARD", Pkgs: binaryDecoderPkgs, Extra: []edgeGuard{guardConsumeGroupPayload, guardFreshFieldCoder(c.P)}, Floor: 5,
 				CutCallees: lazyCutCallees})
+			c.ruleDecodeSiblings("R-DECODE-SIBLINGS")
 			c.ruleDepthPair("R-DEPTH-PAIR", "internal/impl.(*MessageInfo).validate")
 			c.ruleNegLen("R-NEG-LEN", binaryDecoderPkgs, map[string]string{
 				"internal/encoding/messageset.ConsumeFieldValue nn": "re-parses the length prefix of `message`, which is b[:n:n] of a ConsumeBytes call that already succeeded in this function",
